@@ -10,6 +10,7 @@ null_mode 'value' : qrlew's Expr::value semantics (function::Optional: a struct 
                     Some(x), makes the result NULL; a unary function maps Some(x) to Some(f(x)))
 Unsupported constructs raise Unsupported (the caller skips the program and counts it)."""
 import re, fractions
+import paths
 import mir, kern, smt
 from smt import land, lor, lnot, ite
 
@@ -47,7 +48,7 @@ class Bank:
         self.panics = []      # (panic term) collected while evaluating - callers may assert their negation
         self.uf_decl = set()
         self.inj = {}
-        lines = open("/repo/src/data_type/injection.rs").read().split("\n")
+        lines = open(paths.REPO + "/src/data_type/injection.rs").read().split("\n")
         for name in fns:
             m = re.match(r"injection::<impl at src/data_type/injection\.rs:(\d+):\d+: \d+:\d+>::value::\{closure#0\}$", name)
             if m:
